@@ -9,7 +9,7 @@ from props.c06 import Ctx
 
 CRATES = ('compiler', 'common_defs', 'diagnostics', 'parser')
 VALUES = ('call', 'tuple', 'array', 'nested-tuple', 'int')
-STMTS = ('let-wild', 'let-var', 'expr')
+STMTS = ('let-wild', 'let-var', 'expr', 'let-tuple', 'let-tuple-wild')
 
 def core_trace(c, e):
     """calls of a core::Expr in evaluation order; a match without arms is its default"""
@@ -39,6 +39,8 @@ def core_trace(c, e):
 
 def stmt_src(kind, val, i):
     v = {'call': 'f%d()' % i, 'tuple': '(f%d(), g%d())' % (i, i), 'array': '[f%d(), g%d()]' % (i, i), 'nested-tuple': '((f%d(), 1), g%d())' % (i, i), 'int': '7'}[val]
+    if kind in ('let-tuple', 'let-tuple-wild') and val in ('tuple', 'nested-tuple'): return 'let (a%d, %s) = %s;' % (i, 'b%d' % i if kind == 'let-tuple' else '_', v)
+    if kind in ('let-tuple', 'let-tuple-wild'): kind = 'let-var'
     return {'let-wild': 'let _ = %s;' % v, 'let-var': 'let x%d = %s;' % (i, v), 'expr': '%s;' % v}[kind]
 
 def replay(stmts):
@@ -55,12 +57,14 @@ def replay(stmts):
         if v != 'int': want.append('f%d(' % i)
         if v in ('tuple', 'array', 'nested-tuple'): want.append('g%d(' % i)
     missing = [w for w in want if w not in body]
+    pos = [body.find(w) for w in want if w in body]
+    if not missing and pos != sorted(pos): return True, 'goml main `%s`: the emitted main0 calls %s in the order %s' % (' '.join(stmt_src(k, v, i) for i, (k, v) in enumerate(stmts)), [w[:-1] for w in want], [w[:-1] for _, w in sorted(zip(pos, want))])
     return bool(body) and bool(missing), 'goml main `%s`: the emitted main0 %s' % (' '.join(stmt_src(k, v, i) for i, (k, v) in enumerate(stmts)), ('does not call ' + ', '.join(m[:-1] for m in missing)) if missing else ('calls all of them' if body else 'was not emitted: ' + (p.stderr or go)[:160]))
 
 def ob_core_block_effects(r, tier, seed, nstmts=2):
     W = e2.fresh_world(CRATES); c = Ctx(W); tt = W.tt
     DI = tt.find_adt(['diagnostics', 'Diagnostics'], 'diagnostics')
-    r.bounds = 'a block of %d statements, each (solver decision) `let _ = V;`, `let x = V;` or `V;` with V one of %s (components are calls of distinct functions), followed by `()`; compile_match::compile_expr builds the Core of the block' % (nstmts, list(VALUES))
+    r.bounds = 'a block of %d statements, each (solver decision) `let _ = V;`, `let x = V;`, `let (a, b) = V;`, `let (a, _) = V;` (tuple values only) or `V;` with V one of %s (components are calls of distinct functions), followed by `()`; compile_match::compile_expr builds the Core of the block' % (nstmts, list(VALUES))
     r.assumptions = ['gensym names; GlobalTypeEnv::new_empty (no enums / structs: constructor literals are outside this obligation)',
                      'oracle: the calls of the Core expression, in evaluation order, are the calls of the statements in source order, each exactly once']
     i32 = c.tyint(); un = c.ty('TUnit')
@@ -80,6 +84,11 @@ def ob_core_block_effects(r, tier, seed, nstmts=2):
             val, vt, calls = value(v, i); stmts.append((k, v)); want += [('call', n) for n in calls]
             if k == 'expr': exprs.append(val)
             elif k == 'let-wild': exprs.append(c.texpr('ELet', pat=c.tpat('PWild', ty=vt), value=mkbox(val), ty=un))
+            elif k in ('let-tuple', 'let-tuple-wild') and v in ('tuple', 'nested-tuple'):
+                sub = vt.fields[0].items      # component types of the tuple type
+                p0 = c.tpat('PVar', name=mkstr('a%d' % i), ty=sub[0], astptr=ms.NONE())
+                p1 = c.tpat('PVar', name=mkstr('b%d' % i), ty=sub[1], astptr=ms.NONE()) if k == 'let-tuple' else c.tpat('PWild', ty=sub[1])
+                exprs.append(c.texpr('ELet', pat=c.tpat('PTuple', items=PyVec([p0, p1]), ty=vt), value=mkbox(val), ty=un))
             else: exprs.append(c.texpr('ELet', pat=c.tpat('PVar', name=mkstr('x%d' % i), ty=vt, astptr=ms.NONE()), value=mkbox(val), ty=un))
         exprs.append(c.texpr('EPrim', value=c.prim('Unit', ms.UNIT), ty=un))
         ex.notes['stmts'] = list(stmts)
